@@ -27,6 +27,8 @@ CONSTANTS NR,        \* regions 1..NR; 1 and 2 belong to session 1, the others t
           Grants,    \* which grant templates the simulators use (subset of 1..10)
           PO,        \* proxy-only cap names addons register (subset of {"ProxyP", "ProxyQ"})
           Wants,     \* which request lists the viewer uses (subset of 1..7)
+          Long,      \* extra URLs L1..L<Long> per region for LONG histories under one name (0: none)
+          Globals,   \* session-global caps from the login data: "none" (keys absent), "urls", "empty" (empty strings)
           TN         \* names one-shot caps are registered under (subset of {"UpTemp", "CapB"}: a name of
                      \* their own, or next to the grants of an ordinary cap)
 
@@ -58,6 +60,17 @@ UrlT(r) == U(r, "t")
 UrlTx(r) == U(r, "t") \o <<"x">>
 UrlAt(r) == U(r, "a") \o <<"t">>
 TempUrls(r) == {UrlT(r), UrlAt(r)}
+(* Long histories: the k-th long URL is handed out by the k-th LongGrant / LongTemp of the region *)
+LongUrl(r, k) == U(r, "L" \o ToString(k))
+LongUrls(r) == {LongUrl(r, k) : k \in 1..Long}
+AllTempUrls(r) == TempUrls(r) \cup LongUrls(r)
+(* Session-global caps (AppearanceService, MapImageService of the login response): looked at before  *)
+(* any region; an absent or EMPTY global cap matches nothing.                                         *)
+Sessions == {IF r <= 2 THEN 1 ELSE 2 : r \in 1..NR}
+GlobalCaps(s) == IF Globals = "urls"
+                 THEN {<<"AppearanceService", <<"ga" \o ToString(s)>>>>, <<"MapImageService", <<"gm" \o ToString(s)>>>>}
+                 ELSE {}
+GlobalUrls == {g[2] : g \in UNION {GlobalCaps(s) : s \in Sessions}}
 ProxyUrl(r, n) == <<"?P" \o ToString(r) \o n>>
 WrapUrl(r, n, k) == <<"?W" \o ToString(r) \o n \o ToString(k)>>
 Ext(u) == u \o <<"e">>                      \* a request below a granted URL
@@ -95,6 +108,8 @@ AccIn(E, q) == LET B == BestIn(E, q) IN
                IF B = {} THEN {None4}
                ELSE {Tup(e) : e \in B} \cup {<<e.n, e.t, 0, 0>> : e \in {e \in B : e.n \in Asset /\ e.t # "W"}}
 AccOf(c, q) == AccIn(EntriesOf(c), q)
+GlobalAcc(q) == {<<g[1], "N", 0, 0>> : g \in {g \in UNION {GlobalCaps(s) : s \in Sessions} : IsPre(g[2], q)}}
+AccAll(E, q) == IF GlobalAcc(q) # {} THEN GlobalAcc(q) ELSE AccIn(E, q)
 Acc(q) == AccOf(caps, q)
 Best(q) == BestIn(EntriesOf(caps), q)
 IsTempReq(q) == \E e \in Best(q) : e.t = "T"
@@ -102,7 +117,7 @@ ByName(r, n) == IF caps[r][n] = <<>> THEN NoUrl ELSE Head(caps[r][n]).u
 TempNames == {"UpTemp", "CapB"}
 LiveIn(r, n, u) == Cardinality({i \in 1..Len(caps[r][n]) : caps[r][n][i].u = u /\ caps[r][n][i].t = "T"})
 Live(r, u) == LiveIn(r, "UpTemp", u) + LiveIn(r, "CapB", u)
-LiveTemps(r) == Cardinality({<<n, i>> \in TempNames \X (1..8) : i <= Len(caps[r][n]) /\ caps[r][n][i].t = "T"})
+LiveTemps(r) == Cardinality({<<n, i>> \in TempNames \X (1..16) : i <= Len(caps[r][n]) /\ caps[r][n][i].t = "T"})
 TempNameOf(r, u) == IF LiveIn(r, "CapB", u) > 0 THEN "CapB" ELSE "UpTemp"
 PONames(r) == {n \in Names : caps[r][n] # <<>> /\ Head(caps[r][n]).t = "P"}
 
@@ -114,8 +129,8 @@ Init == /\ caps = [r \in Regions |-> [n \in Names |->
         /\ nseed = 0
         /\ hist = [r \in Regions |-> [n \in Names |-> IF n = "Seed" THEN <<[u |-> SeedUrl(r), live |-> TRUE]>> ELSE <<>>]]
         /\ firstP = [r \in Regions |-> [n \in PONameSet |-> NoUrl]]
-        /\ treg = [u \in UNION {TempUrls(r) : r \in Regions} |-> 0]
-        /\ tres = [u \in UNION {TempUrls(r) : r \in Regions} |-> 0]
+        /\ treg = [u \in UNION {AllTempUrls(r) : r \in Regions} |-> 0]
+        /\ tres = [u \in UNION {AllTempUrls(r) : r \in Regions} |-> 0]
 
 (* The viewer's seed request reaches the proxy: an ordered list of names, the proxy-only ones in    *)
 (* every adjacency / relative order with the ordinary ones.                                          *)
@@ -179,6 +194,20 @@ RegisterTemp(r, u, n) ==
     /\ treg' = [treg EXCEPT ![u] = @ + 1]
     /\ UNCHANGED <<pend, nseed, firstP, tres>>
 
+(* Long histories under one name: region.update_caps({"CapA": next}) / register_cap("UpTemp", next, TEMPORARY) *)
+NLong(r) == Cardinality({e \in EntriesOf(caps) : e.r = r /\ e.u \in LongUrls(r)})
+LongGrant(r) ==
+    /\ NLong(r) < Long
+    /\ caps' = [caps EXCEPT ![r]["CapA"] = <<[t |-> "N", u |-> LongUrl(r, NLong(r) + 1)]>> \o @]
+    /\ hist' = [hist EXCEPT ![r]["CapA"] = Append(@, [u |-> LongUrl(r, NLong(r) + 1), live |-> TRUE])]
+    /\ UNCHANGED <<pend, nseed, firstP, treg, tres>>
+LongTemp(r) ==
+    /\ NLong(r) < Long
+    /\ caps' = [caps EXCEPT ![r]["UpTemp"] = <<[t |-> "T", u |-> LongUrl(r, NLong(r) + 1)]>> \o @]
+    /\ hist' = [hist EXCEPT ![r]["UpTemp"] = Append(@, [u |-> LongUrl(r, NLong(r) + 1), live |-> TRUE])]
+    /\ treg' = [treg EXCEPT ![LongUrl(r, NLong(r) + 1)] = @ + 1]
+    /\ UNCHANGED <<pend, nseed, firstP, tres>>
+
 (* region.register_proxy_cap: a second registration yields the same URL *)
 OutRegisterProxy(r, n) == IF caps[r][n] # <<>> THEN Head(caps[r][n]).u ELSE ProxyUrl(r, n)
 RegisterProxy(r, n) ==
@@ -212,6 +241,7 @@ Next == \/ \E r \in Regions : \/ \E w \in 1..7 : SeedReq(r, w)
                               \/ \E i \in 1..10 : SeedResp(r, i)
                               \/ \E u \in TempUrls(r) : \E n \in TempNames : RegisterTemp(r, u, n)
                               \/ \E n \in PONameSet : RegisterProxy(r, n)
+                              \/ LongGrant(r) \/ LongTemp(r)
         \/ \E q \in TempReqs : ResolveTemp(q)
 Spec == Init /\ [][Next]_vars
 
@@ -227,7 +257,7 @@ Attributed ==
 (* ... and nothing else resolves *)
 OnlyGranted ==
     LET E == EntriesOf(caps) IN
-    \A r \in Regions : \A u \in {UrlA(r), UrlAx(r), UrlB(r), UrlC(r), UrlTx(r), AssetR(r), AssetS(r), AssetG} \cup TempUrls(r) :
+    \A r \in Regions : \A u \in {UrlA(r), UrlAx(r), UrlB(r), UrlC(r), UrlTx(r), AssetR(r), AssetS(r), AssetG} \cup AllTempUrls(r) :
         (\A e \in E : ~IsPre(e.u, u)) => AccIn(E, u) = {None4} /\ AccIn(E, Ext(u)) = {None4}
 (* lookup by name yields the most recently granted / registered URL that has not been used up:   *)
 (* judged against the registration history (hist), not against the list the model keeps         *)
@@ -238,7 +268,7 @@ Newest == \A r \in Regions : \A n \in Names : ByName(r, n) = NewestSurvivor(hist
 (* URL is attributed to it (also when the URL extends a granted cap's URL), afterwards never again   *)
 TempOnce ==
     LET E == EntriesOf(caps) IN
-    \A r \in Regions : \A u \in TempUrls(r) :
+    \A r \in Regions : \A u \in AllTempUrls(r) :
         /\ tres[u] <= treg[u] /\ Live(r, u) + tres[u] = treg[u]
         /\ \A q \in {u, Ext(u)} : IF Live(r, u) > 0 THEN AccIn(E, q) = {<<TempNameOf(r, u), "T", r, SessOf(r)>>}
                                    ELSE \A a \in AccIn(E, q) : a[2] # "T"
@@ -262,16 +292,19 @@ SeedRespOK ==
                     /\ v[n] # g[n]
                     /\ \A q \in {v[n], Ext(v[n])} : AccIn(EA, q) = {<<WName(n), "W", r, SessOf(r)>>}
               /\ \A n \in pend[r].need : v[n] = firstP[r][n] /\ v[n] # NoUrl
+(* session-global caps shadow no region cap, and an absent / empty one matches nothing *)
+GlobalsApart == /\ \A e \in EntriesOf(caps) : GlobalAcc(e.u) = {} /\ GlobalAcc(Ext(e.u)) = {}
+                /\ Globals # "urls" => \A r \in Regions : GlobalAcc(SeedUrl(r)) = {} /\ GlobalAcc(<<"zz">>) = {}
 (* registering a proxy-only cap again yields the URL of the first registration *)
 ProxyStable == \A r \in Regions : \A n \in PONameSet : firstP[r][n] # NoUrl => OutRegisterProxy(r, n) = firstP[r][n]
 
 (***************************** observation (binding) ***********************)
-StaticUrls == UNION {{SeedUrl(r), UrlA(r), UrlAx(r), UrlB(r), UrlC(r), UrlTx(r), AssetR(r), AssetS(r)} \cup TempUrls(r) : r \in Regions}
+StaticUrls == UNION {{SeedUrl(r), UrlA(r), UrlAx(r), UrlB(r), UrlC(r), UrlTx(r), AssetR(r), AssetS(r)} \cup AllTempUrls(r) : r \in Regions}
                  \cup {AssetG}
-ReqsIn(E) == LET base == StaticUrls \cup {e.u : e \in E}
+ReqsIn(E) == LET base == StaticUrls \cup GlobalUrls \cup {e.u : e \in E}
              IN base \cup {Ext(u) : u \in base} \cup {<<"zz">>}
 ObsRes == LET E == EntriesOf(caps) IN
-          {[q |-> q, acc |-> AccIn(E, q), b |-> {e.u : e \in BestIn(E, q)}] :
+          {[q |-> q, acc |-> AccAll(E, q), b |-> {e.u : e \in BestIn(E, q)}] :
               q \in {q \in ReqsIn(E) : \A e \in BestIn(E, q) : e.t # "T"}}
 Obs == [res    |-> ObsRes,
         byname |-> {<<r, n, ByName(r, n), IF caps[r][n] = <<>> THEN "-" ELSE Head(caps[r][n]).t>> : <<r, n>> \in Regions \X Names},
@@ -284,5 +317,5 @@ Obs == [res    |-> ObsRes,
         temps  |-> LET E == EntriesOf(caps) IN
                    {<<ru[1], ru[2], Live(ru[1], ru[2]), AccIn({e \in E : ~(e.t = "T" /\ e.u = ru[2])}, ru[2]),
                       <<TempNameOf(ru[1], ru[2]), "T", ru[1], SessOf(ru[1])>>>> :
-                        ru \in {ru \in Regions \X UNION {TempUrls(r) : r \in Regions} : ru[2] \in TempUrls(ru[1])}}]
+                        ru \in {ru \in Regions \X UNION {AllTempUrls(r) : r \in Regions} : ru[2] \in AllTempUrls(ru[1])}}]
 =============================================================================
